@@ -63,7 +63,7 @@ def templates(r):
   (define (gen)
     (call/cc (lambda (r)
       (set! return r)
-      (for-each (lambda (x) (call/cc (lambda (next) (set! gen (lambda () (next #f))) (return x)))) lst)
+      (for-each (lambda (x) (call/cc (lambda (next) (set! gen (lambda () (call/cc (lambda (r2) (set! return r2) (next #f))))) (return x)))) lst)
       (return 'done))))
   (lambda () (gen)))
 (define g (make-gen (list %d %d %d)))
@@ -125,6 +125,64 @@ def templates(r):
     # 13 error raised inside a callback inside a handler, then normal continuation
     T.append(("handler-in-callback", """(verif-emit (map (lambda (x) (with-handler (lambda (e) (note (list 'caught x)) (* x -1)) (if (even? x) (car (vector->list (vector))) x))) (list 1 2 3 %d)))
 (verif-emit (trace-out))""" % v))
+    # 15 return/resume generator over a tree, driven from a loop: every (gen) call comes from the same call site at
+    #    the same stack depth
+    tree = r.choice(["(list (list 1 2) (list 3 (list 4 5)) 6)", "(list 1 (list 2 (list 3 (list 4))))", "(list (list (list %d)) %d)" % (v, w),
+                     "(list %d %d %d %d)" % (v, w, n, v)])
+    T.append(("generator-loop", """(define (tree-walk tree yield)
+  (cond ((null? tree) 'skip)
+        ((pair? tree) (tree-walk (car tree) yield) (tree-walk (cdr tree) yield))
+        (else (yield tree))))
+(define (make-gen tree)
+  (define return #f)
+  (define resume #f)
+  (define (gen)
+    (call/cc (lambda (r)
+      (set! return r)
+      (if resume
+          (resume 'go)
+          (begin (tree-walk tree (lambda (x) (call/cc (lambda (k) (set! resume k) (return x)))))
+                 (return 'done))))))
+  gen)
+(define (collect g acc) (let ((v (g))) (if (equal? v 'done) (reverse acc) (collect g (cons v acc)))))
+(verif-emit (collect (make-gen %s) '()))
+(define (same-fringe? a b)
+  (let ((ga (make-gen a)) (gb (make-gen b)))
+    (let loop () (let ((x (ga)) (y (gb))) (cond ((not (equal? x y)) #f) ((equal? x 'done) #t) (else (loop)))))))
+(verif-emit (same-fringe? %s (list 1 (list 2 3) 4)))""" % (tree, r.choice(["(list (list 1 2) (list 3 4))", "(list (list 1 2) (list 5 4))", tree]))))
+    # 16 the before thunk is not part of the body's extent: an error in it must not make the after thunk run later
+    T.append(("error-in-before-thunk/" + name, """(define (scenario)
+  (call/cc (lambda (return)
+    (with-handler (lambda (e) (note 'caught))
+      (dynamic-wind (lambda () (note 'before) (car (vector->list (vector)))) (lambda () (note 'body)) (lambda () (note 'after))))
+    %s)))
+(verif-emit (scenario))
+(verif-emit (trace-out))""" % C("(return %d)" % v)))
+    # 17 a continuation captured inside the before thunk, re-entered once
+    T.append(("capture-in-before-thunk", """(define k-in-before #f)
+(define reentries 0)
+(define (scenario)
+  (dynamic-wind
+    (lambda () (note 'before-start) (call/cc (lambda (k) (set! k-in-before k))) (note 'before-end))
+    (lambda () (note 'body))
+    (lambda () (note 'after)))
+  (if (< reentries %d) (begin (set! reentries (+ reentries 1)) (k-in-before 'again)) (trace-out)))
+(verif-emit (scenario))""" % r.randint(1, 3)))
+    # 18 escape from the before thunk / error in the after thunk
+    T.append(("escape-from-before-thunk", """(verif-emit (call/cc (lambda (k) (dynamic-wind (lambda () (note 'o-in)) (lambda () (dynamic-wind (lambda () (note 'in) (k %d)) (lambda () (note 'body) 1) (lambda () (note 'out)))) (lambda () (note 'o-out))))))
+(verif-emit (trace-out))""" % v))
+    T.append(("error-in-after-thunk", """(verif-emit (with-handler (lambda (e) (note 'handler) 'recovered) (dynamic-wind (lambda () (note 'o-in)) (lambda () (dynamic-wind (lambda () (note 'in)) (lambda () (note 'body) %d) (lambda () (note 'out) (car (vector->list (vector)))))) (lambda () (note 'o-out)))))
+(verif-emit (trace-out))""" % v))
+    # 19 parameterize across escape and re-entry, two levels
+    T.append(("parameterize-reentry/" + name, """(define prm (make-parameter 'top))
+(define pk #f)
+(define ptimes 0)
+(verif-emit (let ((r (parameterize ((prm 'outer)) (parameterize ((prm 'inner)) (let ((r %s)) (note (list 'body (prm) r)) r)))))
+  (note (list 'outside (prm))) (set! ptimes (+ ptimes 1)) (if (< ptimes %d) (pk ptimes) (list r (trace-out)))))""" % (
+        C("(call/cc (lambda (k) (set! pk k) 0))"), n)))
+    T.append(("parameterize-escape/" + name, """(define prm (make-parameter 'top))
+(verif-emit (list (call/cc (lambda (k) (parameterize ((prm 'outer)) (dynamic-wind (lambda () (note (list 'in (prm)))) (lambda () (parameterize ((prm 'inner)) %s)) (lambda () (note (list 'out (prm)))))))) (prm)))
+(verif-emit (trace-out))""" % C("(k (prm))")))
     # 14 two contexts composed
     T.append(("composed/" + name + "/" + name2, "(verif-emit %s)\n(verif-emit (trace-out))" % C(
         "(call/cc (lambda (k1) %s))" % C2("(call/cc (lambda (k2) (if (> %d %d) (k1 %d) (k2 %d))))" % (v, w, v, w)))))
@@ -143,6 +201,7 @@ def main(tier):
     progs = []
     seen = set()
     discarded = 0
+    attempted = set()
     for _ in range(rounds):
         for name, text in templates(r):
             src = PRELUDE + "\n" + text
@@ -154,6 +213,7 @@ def main(tier):
                 ref = R.reference(forms, fuel=300000)
             except Exception:
                 ref = None
+            attempted.add(name.split("/")[0])
             if ref is None:
                 discarded += 1
                 continue
@@ -173,6 +233,10 @@ def main(tier):
         if st["cont_invocations"] or st["handlers_run"] or st["winds"]:
             rep.nontrivial(p["src"])
     rep.note("programs_by_template", by_template)
+    never = sorted(attempted - set(by_template))
+    if never:
+        # a template the reference never accepts observes nothing: say so instead of counting it as covered
+        rep.inconclusive_note("templates never accepted by the reference: %s" % ", ".join(never), floor=True)
     rep.note("reference_totals", stats)
     for cname, env, opts in CONFIGS:
         cases = []
@@ -212,6 +276,9 @@ def main(tier):
             got = c01.observe(u)
             if got != exp:
                 kind = c01.diff_kind(exp, got, u)
+                if tname == "composed/inside-with-handler/inside-with-handler" and nested_handler_escape(p["src"], exp, got):
+                    rep.violation(F02, "config=%s %s\nprogram:\n%s" % (cname, c01.first_diff(exp, got), p["src"]), replay)
+                    continue
                 rep.violation("C08 %s: %s" % (sig_name(tname), kind),
                               "config=%s %s\nprogram:\n%s" % (cname, c01.first_diff(exp, got), p["src"]), replay)
             elif len(rep.coverage["samples"]) < 6 and tname.split("/")[0] not in [s["template"].split("/")[0] for s in rep.coverage["samples"]]:
@@ -220,6 +287,24 @@ def main(tier):
                         "the statement; continuations are only re-entered within the top-level form that captured them or a later "
                         "form of the same unit whose own continuation ends at the end of that form (pinned by probing)"]
     return rep.finish()
+
+
+F02 = ("C08 F02 escaping from the body of a with-handler nested in another with-handler, through a continuation captured "
+       "between the two, leaves the inner form's meta-continuation installed: the rest of the outer body runs twice")
+
+
+def nested_handler_escape(src, exp, got):
+    """The defect's own arithmetic: (with-handler H (+ A (call/cc (lambda (k1) (with-handler H (+ A ... (k1 V) ...))))))
+    must yield A+V; with the stale meta-continuation the outer (+ A _) is applied a second time: 2A+V."""
+    import re
+    m = re.search(r"\(with-handler \(lambda \(err\) -1\) \(\+ (\d+) \(call/cc \(lambda \(k1\)", src)
+    if not m or exp[0] != got[0] or len(exp[1]) != len(got[1]) or exp[1][1:] != got[1][1:]:
+        return False
+    a = int(m.group(1))
+    try:
+        return int(got[1][0][2:]) == int(exp[1][0][2:]) + a
+    except ValueError:
+        return False
 
 
 def sig_name(tname):
